@@ -1,7 +1,9 @@
 package checks
 
 import (
+	"errors"
 	"fmt"
+	"time"
 
 	"github.com/jrhy/mast"
 	"pgregory.net/rapid"
@@ -19,6 +21,8 @@ type C15Case struct {
 	Big     int   `json:"big,omitempty"`
 	BigBF   uint  `json:"big_bf,omitempty"`
 	Changes []int `json:"changes,omitempty"` // key numbers: present -> delete or update, absent -> insert
+	// ColdCache: the two trees are opened with fresh (cold) node caches of their own instead of none
+	ColdCache bool `json:"cold_cache,omitempty"`
 }
 
 func genC15(t *rapid.T, tier string) C15Case {
@@ -27,6 +31,7 @@ func genC15(t *rapid.T, tier string) C15Case {
 		Keys: []string{core.KLK, core.KLK, core.KInt, core.KUint64, core.KString, core.KBytes, core.KStruct},
 	}, true)}
 	c.Pair.OldRes, c.Pair.NewRes = "reloaded", "reloaded"
+	c.ColdCache = rapid.IntRange(0, 3).Draw(t, "coldcache") == 0
 	return c
 }
 
@@ -38,10 +43,13 @@ func enumC15(tier string, shard, nshards int, yield func(C15Case) bool) (bool, s
 		per = 12
 	}
 	i := 0
-	for _, bf := range []uint{16, 4} {
+	for _, bf := range []uint{16, 4, 3, 2} {
 		for _, n := range sizes {
 			if bf == 4 && n > 10000 {
 				continue
+			}
+			if bf <= 3 && (n < 1000 || n > 3000) {
+				continue // tall trees: 1000-3000 entries at bf 2 and 3 (10+ levels)
 			}
 			for r := 0; r < per; r++ {
 				i++
@@ -53,7 +61,7 @@ func enumC15(tier string, shard, nshards int, yield func(C15Case) bool) (bool, s
 				for j := 0; j <= r%5; j++ {
 					ch = append(ch, (r*7919+j*104729+n/3)%(n+n/2))
 				}
-				if !yield(C15Case{Big: n, BigBF: bf, Changes: ch}) {
+				if !yield(C15Case{Big: n, BigBF: bf, Changes: ch, ColdCache: r%3 == 2}) {
 					return false, ""
 				}
 			}
@@ -62,38 +70,57 @@ func enumC15(tier string, shard, nshards int, yield func(C15Case) bool) (bool, s
 	return false, "large trees (300-3000 entries quick, up to 60000 thorough; bf 16 and 4) differing in 1-5 keys"
 }
 
-func countingDiff(w *core.World, oldT, newT *mast.Mast, w2s ...*core.World) (loadsIter, loadsLinks int, err error) {
-	if len(w2s) > 0 && w2s[0] != w {
-		// trees in two stores: count the loads of both
-		w2 := w2s[0]
-		m1, m2 := w.Store.Mark(), w2.Store.Mark()
-		err = core.Safely("DiffIter", func() error {
-			return newT.DiffIter(core.Ctx, oldT, func(a, r bool, k, av, rv interface{}) (bool, error) { return true, nil })
-		})
-		if err != nil {
-			return
+// countingDiff runs the three diff interfaces and returns, for each, the number of distinct node
+// names loaded from the store(s) involved. settle: when a node cache is configured, give any
+// background reads a moment to arrive before counting (waiting can only reveal more reads; code
+// without background reads is unaffected).
+func countingDiff(w *core.World, oldT, newT *mast.Mast, settle bool, w2s ...*core.World) (loads [3]int, err error) {
+	worlds := []*core.World{w}
+	if len(w2s) > 0 && w2s[0] != w && w2s[0] != nil {
+		worlds = append(worlds, w2s[0])
+	}
+	measure := func(what string, f func() error) (int, error) {
+		marks := make([]int, len(worlds))
+		for i, x := range worlds {
+			marks[i] = x.Store.Mark()
 		}
-		loadsIter = len(w.Store.DistinctLoads(m1)) + len(w2.Store.DistinctLoads(m2))
-		m1, m2 = w.Store.Mark(), w2.Store.Mark()
-		err = core.Safely("DiffLinks", func() error {
-			return newT.DiffLinks(core.Ctx, oldT, func(r bool, l interface{}) (bool, error) { return true, nil })
-		})
-		loadsLinks = len(w.Store.DistinctLoads(m1)) + len(w2.Store.DistinctLoads(m2))
-		return
+		if err := core.Safely(what, f); err != nil {
+			return 0, err
+		}
+		if settle {
+			time.Sleep(3 * time.Millisecond)
+		}
+		n := 0
+		for i, x := range worlds {
+			n += len(x.Store.DistinctLoads(marks[i]))
+		}
+		return n, nil
 	}
-	mark := w.Store.Mark()
-	err = core.Safely("DiffIter", func() error {
+	if loads[0], err = measure("DiffIter", func() error {
 		return newT.DiffIter(core.Ctx, oldT, func(a, r bool, k, av, rv interface{}) (bool, error) { return true, nil })
-	})
-	if err != nil {
+	}); err != nil {
 		return
 	}
-	loadsIter = len(w.Store.DistinctLoads(mark))
-	mark = w.Store.Mark()
-	err = core.Safely("DiffLinks", func() error {
+	if loads[1], err = measure("DiffLinks", func() error {
 		return newT.DiffLinks(core.Ctx, oldT, func(r bool, l interface{}) (bool, error) { return true, nil })
+	}); err != nil {
+		return
+	}
+	loads[2], err = measure("StartDiff/NextEntry", func() error {
+		dc, err := newT.StartDiff(core.Ctx, oldT)
+		if err != nil {
+			return err
+		}
+		for i := 0; i < 1000000; i++ {
+			if _, err := dc.NextEntry(core.Ctx); err != nil {
+				if errors.Is(err, mast.ErrNoMoreDiffs) {
+					return nil
+				}
+				return err
+			}
+		}
+		return nil
 	})
-	loadsLinks = len(w.Store.DistinctLoads(mark))
 	return
 }
 
@@ -183,38 +210,65 @@ func runC15(c C15Case, o *run.Obs) error {
 		return nil
 	}
 	d, shared := symDiff(nOld, nNew)
-	// fresh, cache-less trees so that nothing is in memory
-	oldT, err := w.Load(oldSR, nil, nil, false)
-	if err != nil {
-		o.Label("aborted:base-failure")
-		return nil
+	// freshly opened trees so that nothing is in memory; either cache-less or with a cold cache of their own
+	var cOld, cNew mast.NodeCache
+	if c.ColdCache {
+		cOld, cNew = mast.NewNodeCache(1024), mast.NewNodeCache(1024)
 	}
-	newT, err := wNew.Load(newSR, nil, nil, false)
-	if err != nil {
-		o.Label("aborted:base-failure")
-		return nil
-	}
-	li, ll, err := countingDiff(w, oldT.M, newT.M, wNew)
-	if err != nil {
-		o.Label("aborted:diff-failed(C06/C07)")
-		return nil
+	open2 := func() (*core.Tree, *core.Tree, bool) {
+		if c.ColdCache {
+			cOld, cNew = mast.NewNodeCache(1024), mast.NewNodeCache(1024)
+		}
+		a, err1 := w.Load(oldSR, nil, cOld, false)
+		b, err2 := wNew.Load(newSR, nil, cNew, false)
+		return a, b, err1 == nil && err2 == nil
 	}
 	bound := 2*d + 2
-	if li > bound {
-		return fmt.Errorf("%s: DiffIter loaded %d distinct nodes; the versions differ in D=%d nodes (bound 2D+2=%d; %d shared nodes, old %d, new %d)", desc, li, d, bound, shared, len(nOld), len(nNew))
-	}
-	if ll > bound {
-		return fmt.Errorf("%s: DiffLinks loaded %d distinct nodes; the versions differ in D=%d nodes (bound 2D+2=%d; %d shared nodes)", desc, ll, d, bound, shared)
-	}
-	if d == 0 && (li != 0 || ll != 0) {
-		return fmt.Errorf("%s: diffing a version with itself loaded %d / %d nodes, expected none", desc, li, ll)
+	names := []string{"DiffIter", "DiffLinks", "StartDiff/NextEntry"}
+	var li int
+	// each interface is measured on freshly opened trees (a warm cache would hide reads)
+	for which := 0; which < 3; which++ {
+		oldT, newT, ok := open2()
+		if !ok {
+			o.Label("aborted:base-failure")
+			return nil
+		}
+		loads, err := countingDiff(w, oldT.M, newT.M, c.ColdCache, wNew)
+		if err != nil {
+			o.Label("aborted:diff-failed(C06/C07)")
+			return nil
+		}
+		n := loads[which]
+		if !c.ColdCache {
+			// without a cache every interface can be measured in the same run
+			for j := 0; j < 3; j++ {
+				if loads[j] > bound {
+					return fmt.Errorf("%s: %s loaded %d distinct nodes; the versions differ in D=%d nodes (bound 2D+2=%d; %d shared nodes, old %d, new %d)", desc, names[j], loads[j], d, bound, shared, len(nOld), len(nNew))
+				}
+				if d == 0 && loads[j] != 0 {
+					return fmt.Errorf("%s: %s on a version and itself loaded %d nodes, expected none", desc, names[j], loads[j])
+				}
+			}
+			li = loads[0]
+			break
+		}
+		if which == 0 {
+			li = n
+		}
+		if n > bound {
+			return fmt.Errorf("%s: with a cold node cache, %s loaded %d distinct nodes; the versions differ in D=%d nodes (bound 2D+2=%d; %d shared nodes)", desc, names[which], n, d, bound, shared)
+		}
+		if d == 0 && n != 0 {
+			return fmt.Errorf("%s: with a cold node cache, %s on a version and itself loaded %d nodes, expected none", desc, names[which], n)
+		}
 	}
 	// the same version opened twice: no loads at all
-	same, err := wNew.Load(newSR, nil, nil, false)
-	if err == nil {
-		si, sl, err := countingDiff(wNew, same.M, newT.M)
-		if err == nil && (si != 0 || sl != 0) {
-			return fmt.Errorf("%s: diffing a version with itself loaded %d (DiffIter) / %d (DiffLinks) nodes, expected none", desc, si, sl)
+	if same, err := wNew.Load(newSR, nil, cNew, false); err == nil {
+		if other, err := wNew.Load(newSR, nil, cOld, false); err == nil {
+			loads, err := countingDiff(wNew, same.M, other.M, c.ColdCache)
+			if err == nil && (loads[0] != 0 || loads[1] != 0 || loads[2] != 0) {
+				return fmt.Errorf("%s: diffing a version with itself loaded %d (DiffIter) / %d (DiffLinks) / %d (StartDiff+NextEntry) nodes, expected none", desc, loads[0], loads[1], loads[2])
+			}
 		}
 	}
 	neverLoaded := shared - 0
